@@ -1460,6 +1460,10 @@ func RunWhere(opts GlobalOptions) error {
 	if opts.StartDir != "" {
 		start = opts.StartDir
 	}
+	start, err = filepath.Abs(start)
+	if err != nil {
+		return err
+	}
 	ergoDir, err := resolveErgoDir(start)
 	if err != nil {
 		return err
